@@ -95,14 +95,28 @@ impl Parser {
                 return self.parse_impl(cursor, payload);
             }
 
-            let res = cursor.transaction(|cur| self.parse_impl(cur, payload));
+            // In discard mode, a candidate frame is only consumed once it is complete. An
+            // incomplete candidate is left in the buffer and parsed again from its first
+            // byte when more data arrives, so that a candidate that later turns out to be
+            // bad can always be rolled back to one byte after its start, no matter how
+            // the bytes were split across reads.
+            self.reset();
+
+            let res = cursor.transaction(|cur| match self.parse_impl(cur, payload) {
+                Ok(Some(header)) => Ok(header),
+                Ok(None) => Err(None),
+                Err(err) => Err(Some(err)),
+            });
 
             match res {
-                Ok(x) => return Ok(x),
-                Err(_) => {
-                    let _ = cursor.read_u8(); // advance one byte
+                Ok(header) => return Ok(Some(header)),
+                Err(None) => {
                     self.reset();
-                    // goto next iteration
+                    return Ok(None);
+                }
+                Err(Some(_)) => {
+                    // advance one byte and go to the next iteration
+                    let _ = cursor.read_u8();
                 }
             }
         }
